@@ -43,6 +43,8 @@ enum Tok {
     Call { recv: String, method: String, scope: Vec<usize> },
     /// the element is cloned: `.clone()` on the looked-up value, `clone_fn`, memcpy
     CloneElem { scope: Vec<usize> },
+    /// the element buffer is reached directly: `<base>.ptr` (only produced by `trace_buf`)
+    Buf { base: String, scope: Vec<usize> },
 }
 
 const TRACKED: &[&str] = &[
@@ -57,6 +59,8 @@ struct Tracer {
     /// name of the `let` whose initialiser is being visited, if that
     /// initialiser is exactly `<recv>.lock().unwrap()`
     binding: Option<String>,
+    /// also record `<base>.ptr`
+    with_buf: bool,
 }
 
 fn lock_unwrap_recv(e: &syn::Expr) -> Option<&syn::Expr> {
@@ -120,6 +124,16 @@ impl<'ast> Visit<'ast> for Tracer {
             self.toks.push(Tok::Call { recv, method, scope: self.scope.clone() });
         }
     }
+    fn visit_expr_field(&mut self, f: &'ast syn::ExprField) {
+        syn::visit::visit_expr_field(self, f);
+        if self.with_buf {
+            if let syn::Member::Named(m) = &f.member {
+                if m == "ptr" {
+                    self.toks.push(Tok::Buf { base: norm(&f.base), scope: self.scope.clone() });
+                }
+            }
+        }
+    }
     fn visit_expr_call(&mut self, c: &'ast syn::ExprCall) {
         syn::visit::visit_expr_call(self, c);
         let f = norm(&c.func);
@@ -142,9 +156,244 @@ fn expr_is_hook(e: &syn::Expr) -> bool {
 }
 
 fn trace(block: &syn::Block) -> Vec<Tok> {
-    let mut t = Tracer { toks: vec![], scope: vec![], next_block: 0, binding: None };
+    let mut t = Tracer { toks: vec![], scope: vec![], next_block: 0, binding: None, with_buf: false };
     t.visit_block(block);
     t.toks
+}
+
+/// the lock trace with the direct buffer accesses (`<base>.ptr`) in it
+fn trace_buf(block: &syn::Block) -> Vec<Tok> {
+    let mut t = Tracer { toks: vec![], scope: vec![], next_block: 0, binding: None, with_buf: true };
+    t.visit_block(block);
+    t.toks
+}
+
+// ---------------------------------------------------------------- every function of the file
+
+/// what one function of `list.rs` (production code) does with the lock and the buffer
+struct FnInfo {
+    /// `List::get`, `PartialEq for List::eq`, `ffi::list_get`, …
+    name: String,
+    /// receivers of `.lock()` / `.read()` / `.write()` / `.try_*()` on a list's lock (`….0`)
+    locks: Vec<String>,
+    /// direct accesses to the element buffer: `<base>.ptr`, `from_raw_parts`
+    bufs: Vec<String>,
+    /// the return type mentions a reference or a raw pointer
+    ret_ptr: bool,
+}
+
+fn is_test_attr(attrs: &[syn::Attribute]) -> bool {
+    attrs.iter().any(|a| a.path().is_ident("cfg") && norm(&a.meta).contains("test"))
+}
+
+struct FnScan {
+    locks: Vec<String>,
+    bufs: Vec<String>,
+}
+
+impl<'ast> Visit<'ast> for FnScan {
+    fn visit_stmt(&mut self, s: &'ast syn::Stmt) {
+        match s {
+            syn::Stmt::Local(l) if is_hook_attr(&l.attrs) => {}
+            syn::Stmt::Expr(e, _) if expr_is_hook(e) => {}
+            _ => syn::visit::visit_stmt(self, s),
+        }
+    }
+    fn visit_expr_method_call(&mut self, m: &'ast syn::ExprMethodCall) {
+        syn::visit::visit_expr_method_call(self, m);
+        let name = m.method.to_string();
+        if ["lock", "read", "write", "try_lock", "try_read", "try_write"].contains(&name.as_str()) {
+            let recv = norm(&m.receiver);
+            if recv.ends_with(".0") {
+                self.locks.push(format!("{recv}.{name}()"));
+            }
+        }
+    }
+    fn visit_expr_field(&mut self, f: &'ast syn::ExprField) {
+        syn::visit::visit_expr_field(self, f);
+        if let syn::Member::Named(m) = &f.member {
+            if m == "ptr" {
+                self.bufs.push(format!("{}.ptr", norm(&f.base)));
+            }
+        }
+    }
+    fn visit_expr_call(&mut self, c: &'ast syn::ExprCall) {
+        syn::visit::visit_expr_call(self, c);
+        let f = norm(&c.func);
+        if f.contains("from_raw_parts") {
+            self.bufs.push("from_raw_parts".into());
+        }
+    }
+}
+
+/// every function above the lock: module `ffi`, the impls of `List`,
+/// `IntoIter`, `ErasedList` (inherent and trait impls). `RawList` and the
+/// allocation helpers live *below* the lock (they are only reachable through
+/// a guard) and are not listed; `#[cfg(feature = "verif-hooks")]` and
+/// `#[cfg(test)]` items are skipped.
+struct Enumerator {
+    label: Vec<String>,
+    out: Vec<FnInfo>,
+}
+
+impl Enumerator {
+    fn add(&mut self, sig: &syn::Signature, block: &syn::Block) {
+        let mut sc = FnScan { locks: vec![], bufs: vec![] };
+        sc.visit_block(block);
+        let ret = match &sig.output {
+            syn::ReturnType::Default => String::new(),
+            syn::ReturnType::Type(_, t) => norm(&**t),
+        };
+        let ret_ptr = ret.contains('&') || ret.contains("*const") || ret.contains("*mut") || ret.contains("NonNull");
+        let prefix = self.label.last().cloned().unwrap_or_default();
+        self.out.push(FnInfo {
+            name: if prefix.is_empty() { sig.ident.to_string() } else { format!("{prefix}::{}", sig.ident) },
+            locks: sc.locks,
+            bufs: sc.bufs,
+            ret_ptr,
+        });
+    }
+}
+
+fn strip_generics(t: &str) -> String {
+    t.split('<').next().unwrap_or(t).to_string()
+}
+
+impl<'ast> Visit<'ast> for Enumerator {
+    fn visit_item_mod(&mut self, m: &'ast syn::ItemMod) {
+        if is_hook_attr(&m.attrs) || is_test_attr(&m.attrs) {
+            return;
+        }
+        // `boundary` is only a namespace; `ffi` labels its free functions
+        let name = m.ident.to_string();
+        self.label.push(if name == "ffi" { "ffi".into() } else { String::new() });
+        syn::visit::visit_item_mod(self, m);
+        self.label.pop();
+    }
+    fn visit_item_impl(&mut self, i: &'ast syn::ItemImpl) {
+        if is_hook_attr(&i.attrs) || is_test_attr(&i.attrs) {
+            return;
+        }
+        let ty = strip_generics(&norm(&*i.self_ty));
+        if ty == "RawList" || ty == "DropGuard" {
+            return;
+        }
+        let label = match &i.trait_ {
+            Some((_, p, _)) => format!("{} for {ty}", strip_generics(&norm(p))),
+            None => ty,
+        };
+        self.label.push(label);
+        syn::visit::visit_item_impl(self, i);
+        self.label.pop();
+    }
+    fn visit_impl_item_fn(&mut self, f: &'ast syn::ImplItemFn) {
+        if is_hook_attr(&f.attrs) || is_test_attr(&f.attrs) {
+            return;
+        }
+        self.add(&f.sig, &f.block);
+        syn::visit::visit_impl_item_fn(self, f);
+    }
+    fn visit_item_fn(&mut self, f: &'ast syn::ItemFn) {
+        if is_hook_attr(&f.attrs) || is_test_attr(&f.attrs) {
+            return;
+        }
+        // free functions: only those of module `ffi` are above the lock
+        if self.label.last().map(|l| l == "ffi").unwrap_or(false) {
+            self.add(&f.sig, &f.block);
+        }
+        syn::visit::visit_item_fn(self, f);
+    }
+}
+
+/// the functions whose steps the model has (`Op` of Model/ListConc, through
+/// the shapes checked below)
+const MODELLED: &[&str] = &[
+    "ffi::list_get",
+    "List::get",
+    "List::to_vec",
+    "PartialEq for List::eq",
+    "PartialEq for ErasedList::eq",
+    "ErasedList::push",
+    "ErasedList::get",
+    "ErasedList::concat",
+    "ErasedList::contains",
+    "ErasedList::contains_owned",
+    "ErasedList::index",
+    "ErasedList::index_owned",
+    "ErasedList::swap",
+    "ErasedList::len",
+    "ErasedList::capacity",
+    "ErasedList::is_empty",
+];
+
+/// `List::to_vec`: one `let`-bound guard on `self.inner.0`, the buffer reached
+/// only through that guard, every element cloned inside the guard's block,
+/// the guard never dropped by hand, nothing but an owned value returned
+fn to_vec_under_guard(b: &find::FnBody) -> (bool, String) {
+    let toks = trace_buf(&b.block);
+    let locks: Vec<(&String, &Option<String>, &Vec<usize>)> = toks
+        .iter()
+        .filter_map(|t| if let Tok::Lock { recv, bound, scope } = t { Some((recv, bound, scope)) } else { None })
+        .collect();
+    let why = |w: &str| (false, format!("{w}; lock trace: {}", show(&toks)));
+    let [(recv, Some(g), gscope)] = locks.as_slice() else {
+        return why("expected exactly one let-bound guard");
+    };
+    if recv.as_str() != "self.inner.0" {
+        return why("the lock taken is not self.inner.0");
+    }
+    let bufs: Vec<&String> = toks.iter().filter_map(|t| if let Tok::Buf { base, .. } = t { Some(base) } else { None }).collect();
+    if bufs.is_empty() || bufs.iter().any(|b| *b != g) {
+        return why("the buffer is not reached through the guard");
+    }
+    let clones: Vec<&Vec<usize>> =
+        toks.iter().filter_map(|t| if let Tok::CloneElem { scope } = t { Some(scope) } else { None }).collect();
+    if clones.is_empty() {
+        return why("no element clone found");
+    }
+    if clones.iter().any(|c| !(c.len() >= gscope.len() && c[..gscope.len()] == gscope[..])) {
+        return why("an element is cloned outside the guard's block");
+    }
+    if toks.iter().any(|t| matches!(t, Tok::Drop(n) if n == g)) {
+        return why("the guard is dropped by hand");
+    }
+    let li = toks.iter().position(|t| matches!(t, Tok::Lock { .. })).unwrap();
+    if toks[..li].iter().any(|t| matches!(t, Tok::Buf { .. } | Tok::CloneElem { .. })) {
+        return why("the buffer is touched before the lock is taken");
+    }
+    (true, show(&toks))
+}
+
+/// the typed `==`: both slices are built from the two guards bound by
+/// `let (x, y) = if … { lock; lock; (x, y) } else { … }` and nothing is
+/// dropped by hand (the guards live to the end of the function, where the
+/// comparison has been done)
+fn typed_eq_walk_under_guards(b: &find::FnBody) -> (bool, String) {
+    let toks = trace_buf(&b.block);
+    let why = |w: &str| (false, format!("{w}; lock trace: {}", show(&toks)));
+    let mut names: Option<(String, String)> = None;
+    for s in &b.block.stmts {
+        if let syn::Stmt::Local(l) = s {
+            if let (syn::Pat::Tuple(t), Some(init)) = (&l.pat, &l.init) {
+                if let (syn::Expr::If(_), [syn::Pat::Ident(x), syn::Pat::Ident(y)]) =
+                    (&*init.expr, t.elems.iter().collect::<Vec<_>>().as_slice())
+                {
+                    names = Some((x.ident.to_string(), y.ident.to_string()));
+                }
+            }
+        }
+    }
+    let Some((x, y)) = names else {
+        return why("no `let (a, b) = if … { lock; lock; (a, b) } else { … }` holding the two guards");
+    };
+    let bufs: Vec<&String> = toks.iter().filter_map(|t| if let Tok::Buf { base, .. } = t { Some(base) } else { None }).collect();
+    if !bufs.iter().any(|b| **b == x) || !bufs.iter().any(|b| **b == y) || bufs.iter().any(|b| **b != x && **b != y) {
+        return why("the two slices are not built from the two guards");
+    }
+    if toks.iter().any(|t| matches!(t, Tok::Drop(_))) {
+        return why("a guard is dropped by hand");
+    }
+    (true, show(&toks))
 }
 
 fn show(toks: &[Tok]) -> String {
@@ -155,6 +404,7 @@ fn show(toks: &[Tok]) -> String {
             Tok::Drop(n) => format!("drop({n})"),
             Tok::Call { recv, method, .. } => format!("{recv}.{method}"),
             Tok::CloneElem { .. } => "clone-element".into(),
+            Tok::Buf { base, .. } => format!("{base}.ptr"),
         })
         .collect::<Vec<_>>()
         .join("; ")
@@ -191,6 +441,11 @@ fn clone_under_guard(name: &str, toks: &[Tok], handle: &[&str], erased_get_is_te
         if !erased_get_is_temp {
             return bad("lookup through ErasedList::get, whose shape is not the temporary-guard one");
         }
+        return Ok(false);
+    }
+    // the lookup goes through a temporary guard: it is gone at the end of the
+    // lookup's statement, before anything is cloned
+    if recv.ends_with(".0.lock().unwrap()") {
         return Ok(false);
     }
     // the lookup goes through a guard bound by `let`
@@ -276,6 +531,38 @@ fn single_section(name: &str, toks: &[Tok], method: &str) -> Result<Shape, Strin
 fn c16facts(repo: &Path) -> Result<String, String> {
     let f = find::parse(repo, "src/value/list.rs")?;
     let mut notes: Vec<String> = vec![];
+
+    // ---- every function above the lock: which of them take the lock or touch the buffer
+    let mut en = Enumerator { label: vec![], out: vec![] };
+    en.visit_file(&f);
+    let mut unmodelled: Vec<String> = vec![];
+    let mut locking: Vec<String> = vec![];
+    for i in &en.out {
+        if i.locks.is_empty() && i.bufs.is_empty() {
+            continue;
+        }
+        let mut what = vec![];
+        if !i.locks.is_empty() {
+            what.push(format!("takes {}", i.locks.join(", ")));
+        }
+        if !i.bufs.is_empty() {
+            what.push(format!("reaches the element buffer through {}", i.bufs.join(", ")));
+        }
+        if i.ret_ptr && !i.locks.is_empty() {
+            what.push("returns a reference / pointer (whatever it locked is unlocked when it returns)".into());
+        }
+        if MODELLED.contains(&i.name.as_str()) {
+            locking.push(format!("{}: {}", i.name, what.join("; ")));
+        } else {
+            unmodelled.push(format!("{}: {}", i.name, what.join("; ")));
+        }
+    }
+    notes.push(format!(
+        "functions above the lock: {} ({} take the lock or touch the buffer, {} of them outside the modelled set)",
+        en.out.len(),
+        locking.len() + unmodelled.len(),
+        unmodelled.len()
+    ));
 
     // ---- ErasedList's one-section methods
     let mut shapes = vec![];
@@ -570,7 +857,10 @@ fn c16facts(repo: &Path) -> Result<String, String> {
         }
         [] => {
             // argument order (or, on the pinned tree, `self` twice): not the ordered form
-            if tl != ["self.inner.0", "other.inner.0"] && tl != ["self.inner.0", "self.inner.0"] {
+            if tl.is_empty() {
+                // it takes no lock itself (whatever it calls is listed among the functions above)
+                notes.push("List<T>::eq takes no lock itself".into());
+            } else if tl != ["self.inner.0", "other.inner.0"] && tl != ["self.inner.0", "self.inner.0"] {
                 return Err(format!("List<T>::eq: unrecognised lock sequence {tl:?}: {}", show(&tt)));
             }
             false
@@ -587,13 +877,36 @@ fn c16facts(repo: &Path) -> Result<String, String> {
         show(&tt)
     ));
 
+    // ---- the Rust-side walks over the whole buffer
+    let tv = find::func(&f, "to_vec", Some("List"))?;
+    let (to_vec_under, tv_note) = to_vec_under_guard(&tv);
+    notes.push(format!("List::to_vec: walk under its guard = {to_vec_under}; {tv_note}"));
+    let (typed_walk_under, tw_note) = typed_eq_walk_under_guards(&te);
+    notes.push(format!("List<T>::eq: walk under both guards = {typed_walk_under}; {tw_note}"));
+
     let b = |x: bool| if x { "true" } else { "false" };
     let mut out = String::new();
     out.push_str("/- GENERATED by /verif/extract (target `c16facts`) from src/value/list.rs — do not edit.\n");
     for n in &notes {
         out.push_str(&format!("   {n}\n"));
     }
-    out.push_str("-/\nimport RotoV.Model.ListConc\nnamespace RotoV.Gen.C16\nopen RotoV.ListConc\n\n");
+    for l in &locking {
+        out.push_str(&format!("   MODELLED {l}\n"));
+    }
+    for u in &unmodelled {
+        out.push_str(&format!("   UNMODELLED {u}\n"));
+    }
+    out.push_str("-/\nimport RotoV.Model.ListTrace\nnamespace RotoV.Gen.C16\nopen RotoV.ListConc\n\n");
+    out.push_str(&format!(
+        "/-- number of functions of src/value/list.rs above the lock (module `ffi`, impls of `List`, `IntoIter`,\n    `ErasedList`) that take a list's lock or touch the element buffer and are NOT among the operations the\n    model has steps for (listed as UNMODELLED above) -/\ndef unmodelledLockingFns : Nat := {}\n/-- … and the number of those that are -/\ndef modelledLockingFns : Nat := {}\n\n",
+        unmodelled.len(),
+        locking.len()
+    ));
+    out.push_str(&format!(
+        "/-- `List::to_vec`: the whole walk (slice, clone of every element) inside one `let`-bound guard -/\ndef toVecUnderGuard : Bool := {}\n/-- `List<T>::eq`: both slices are built from, and compared under, the two guards -/\ndef typedEqWalkUnderGuards : Bool := {}\n\n",
+        b(to_vec_under),
+        b(typed_walk_under)
+    ));
     out.push_str(&format!(
         "def facts : Facts :=\n  {{ getUnderGuard := {}\n    ffiGetUnderGuard := {}\n    eqOrdered := {}\n    concatAtomic := {} }}\n\n",
         b(get_under),
@@ -609,7 +922,405 @@ fn c16facts(repo: &Path) -> Result<String, String> {
         b(typed_ptr_eq_first),
         b(typed_ordered)
     ));
-    out.push_str(&format!("def eqTrace : List LockTok :=\n  [{}]\n", eq_trace.join(", ")));
+    out.push_str(&format!("def eqTrace : List LockTok :=\n  [{}]\n\n", eq_trace.join(", ")));
+    out.push_str(&raw_traces(&f)?);
     out.push_str("\nend RotoV.Gen.C16\n");
+    Ok(out)
+}
+
+// ---------------------------------------------------------------- raw lock traces (for the skeleton derived in Lean)
+
+/// a token of the raw trace of one path through one function
+#[derive(Clone, Debug, PartialEq)]
+enum R {
+    /// schedule point before a lock acquisition (`c16_api::sched_*(&X.0, …)`)
+    Point(String),
+    /// schedule point between lookup and use (`c16_api::lookup_then_use(&X.0, …)`)
+    UsePoint(String),
+    Lock(String),
+    Unlock(String),
+    Access(String),
+}
+
+struct Guard {
+    /// name of the binding that holds the guard (`None`: a temporary of the statement)
+    name: Option<String>,
+    who: String,
+    depth: usize,
+    alive: bool,
+}
+
+/// One path through a function body, linearised: `choose` decides the `if`s
+/// on `Arc::ptr_eq` / the address comparison; every other branch is visited
+/// in source order (the longest path). Guard lifetimes: a temporary guard
+/// dies at the end of its statement, a `let`-bound one at `drop(name)`, at the
+/// end of its block (unless the block's tail expression hands it out), or at
+/// the end of the function.
+struct RawTracer<'a> {
+    out: Vec<R>,
+    guards: Vec<Guard>,
+    depth: usize,
+    choose: &'a [(&'a str, bool)],
+    in_chosen: usize,
+    ended: bool,
+    binding: Option<String>,
+    last_access: Option<String>,
+    /// guards handed out by the tail tuple of the block just left, by position
+    moved: Vec<Option<usize>>,
+    notes: Vec<String>,
+}
+
+fn who_of_lock_recv(recv: &str) -> Option<String> {
+    match recv {
+        "self.0" | "self.inner.0" | "this.0" => Some("self".into()),
+        "other.0" | "other.inner.0" => Some("other".into()),
+        "new.0" => Some("new".into()),
+        _ => None,
+    }
+}
+
+const LOCK_METHODS: &[&str] = &["lock", "read", "write"];
+
+impl<'a> RawTracer<'a> {
+    fn guard_named(&self, n: &str) -> Option<usize> {
+        self.guards.iter().rposition(|g| g.alive && g.name.as_deref() == Some(n))
+    }
+    fn release(&mut self, i: usize) {
+        if self.guards[i].alive {
+            self.guards[i].alive = false;
+            self.out.push(R::Unlock(self.guards[i].who.clone()));
+        }
+    }
+    fn access(&mut self, who: String) {
+        self.last_access = Some(who.clone());
+        self.out.push(R::Access(who));
+    }
+    /// alive guards named by identifiers inside `e`
+    fn guards_in(&self, e: &syn::Expr) -> Vec<usize> {
+        struct Ids(Vec<String>);
+        impl<'ast> Visit<'ast> for Ids {
+            fn visit_expr_path(&mut self, p: &'ast syn::ExprPath) {
+                if let Some(i) = p.path.get_ident() {
+                    self.0.push(i.to_string());
+                }
+            }
+        }
+        let mut ids = Ids(vec![]);
+        ids.visit_expr(e);
+        let mut out = vec![];
+        for n in ids.0 {
+            if let Some(g) = self.guard_named(&n) {
+                if !out.contains(&g) {
+                    out.push(g);
+                }
+            }
+        }
+        out
+    }
+    fn hook(&mut self, text: &str) {
+        // `c16_api::sched_lock(&X.0, "site")`, `sched_read`, …; `lookup_then_use(&X.0, p, "site")`
+        let arg = |after: &str| -> Option<String> {
+            let i = text.find(after)? + after.len();
+            let rest = &text[i..];
+            let rest = rest.strip_prefix('&').unwrap_or(rest);
+            let end = rest.find(',')?;
+            who_of_lock_recv(&rest[..end])
+        };
+        if let Some(i) = text.find("c16_api::sched_") {
+            let open = text[i..].find('(').map(|j| i + j + 1);
+            if let Some(o) = open {
+                let rest = &text[o..];
+                let rest = rest.strip_prefix('&').unwrap_or(rest);
+                if let Some(end) = rest.find(',') {
+                    if let Some(w) = who_of_lock_recv(&rest[..end]) {
+                        self.out.push(R::Point(w));
+                        return;
+                    }
+                }
+            }
+            self.notes.push(format!("schedule point with an unrecognised lock: {text}"));
+        } else if text.contains("lookup_then_use(") {
+            match arg("lookup_then_use(") {
+                Some(w) => self.out.push(R::UsePoint(w)),
+                None => self.notes.push(format!("use point with an unrecognised lock: {text}")),
+            }
+        }
+    }
+}
+
+impl<'ast, 'a> Visit<'ast> for RawTracer<'a> {
+    fn visit_block(&mut self, b: &'ast syn::Block) {
+        self.depth += 1;
+        let d = self.depth;
+        for s in &b.stmts {
+            self.visit_stmt(s);
+        }
+        // guards of this block: handed out by the tail expression, or released
+        let mut moved: Vec<Option<usize>> = vec![];
+        if let Some(syn::Stmt::Expr(tail, None)) = b.stmts.last() {
+            let elems: Vec<&syn::Expr> = match tail {
+                syn::Expr::Tuple(t) => t.elems.iter().collect(),
+                e => vec![e],
+            };
+            for e in elems {
+                let e = match e {
+                    syn::Expr::Call(c) if norm(&c.func) == "Some" && c.args.len() == 1 => &c.args[0],
+                    e => e,
+                };
+                let g = match e {
+                    syn::Expr::Path(p) => p.path.get_ident().and_then(|i| self.guard_named(&i.to_string())),
+                    _ => None,
+                };
+                moved.push(g.filter(|&g| self.guards[g].depth == d));
+            }
+        }
+        for i in (0..self.guards.len()).rev() {
+            if self.guards[i].alive && self.guards[i].depth == d {
+                if moved.contains(&Some(i)) {
+                    self.guards[i].depth = d - 1;
+                } else if !self.ended {
+                    self.release(i);
+                }
+            }
+        }
+        self.moved = moved;
+        self.depth -= 1;
+    }
+    fn visit_stmt(&mut self, s: &'ast syn::Stmt) {
+        if self.ended {
+            return;
+        }
+        match s {
+            syn::Stmt::Local(l) if is_hook_attr(&l.attrs) => {
+                let t = norm(l);
+                self.hook(&t);
+            }
+            syn::Stmt::Expr(e, _) if expr_is_hook(e) => {
+                let t = norm(e);
+                self.hook(&t);
+            }
+            _ => {
+                syn::visit::visit_stmt(self, s);
+                // temporaries of the statement die here
+                for i in (0..self.guards.len()).rev() {
+                    if self.guards[i].alive && self.guards[i].name.is_none() {
+                        self.release(i);
+                    }
+                }
+            }
+        }
+    }
+    fn visit_local(&mut self, l: &'ast syn::Local) {
+        match (&l.pat, &l.init) {
+            (syn::Pat::Ident(i), Some(init)) if lock_recv_any(&init.expr).is_some() => {
+                self.binding = Some(i.ident.to_string());
+                syn::visit::visit_local(self, l);
+                self.binding = None;
+            }
+            (syn::Pat::Tuple(t), Some(init)) => {
+                self.moved.clear();
+                self.visit_expr(&init.expr);
+                let moved = std::mem::take(&mut self.moved);
+                for (p, g) in t.elems.iter().zip(moved) {
+                    if let (syn::Pat::Ident(i), Some(g)) = (p, g) {
+                        self.guards[g].name = Some(i.ident.to_string());
+                    }
+                }
+            }
+            _ => syn::visit::visit_local(self, l),
+        }
+    }
+    fn visit_expr_if(&mut self, i: &'ast syn::ExprIf) {
+        let c = norm(&i.cond).replace(".inner", "");
+        if let Some((_, take_then)) = self.choose.iter().find(|(k, _)| *k == c) {
+            self.in_chosen += 1;
+            if *take_then {
+                self.visit_block(&i.then_branch);
+            } else if let Some((_, e)) = &i.else_branch {
+                match &**e {
+                    syn::Expr::Block(b) => self.visit_block(&b.block),
+                    e => self.visit_expr(e),
+                }
+            }
+            self.in_chosen -= 1;
+        } else {
+            syn::visit::visit_expr_if(self, i);
+        }
+    }
+    fn visit_expr_return(&mut self, r: &'ast syn::ExprReturn) {
+        syn::visit::visit_expr_return(self, r);
+        if self.in_chosen > 0 {
+            self.ended = true;
+        }
+    }
+    fn visit_expr_method_call(&mut self, m: &'ast syn::ExprMethodCall) {
+        syn::visit::visit_expr_method_call(self, m);
+        let recv = norm(&m.receiver);
+        let method = m.method.to_string();
+        if LOCK_METHODS.contains(&method.as_str()) && recv.ends_with(".0") {
+            match who_of_lock_recv(&recv) {
+                Some(w) => {
+                    self.out.push(R::Lock(w.clone()));
+                    self.guards.push(Guard { name: self.binding.clone(), who: w, depth: self.depth, alive: true });
+                }
+                None => self.notes.push(format!("lock on `{recv}`")),
+            }
+        } else if method == "clone" && !recv.contains("vtable") && !recv.ends_with(".0") && recv != "self" {
+            let w = self.last_access.clone().unwrap_or_else(|| "self".into());
+            self.access(w);
+        } else if TRACKED.contains(&method.as_str()) {
+            // through a guard (by name, or the temporary `X.lock().unwrap()`)
+            let via = match &*m.receiver {
+                syn::Expr::Path(p) => p.path.get_ident().and_then(|i| self.guard_named(&i.to_string())),
+                e => lock_recv_any(e)
+                    .and_then(|r| who_of_lock_recv(&norm(r)))
+                    .and_then(|w| self.guards.iter().rposition(|g| g.alive && g.name.is_none() && g.who == w)),
+            };
+            if let Some(g) = via {
+                let w = self.guards[g].who.clone();
+                self.access(w);
+                for a in &m.args {
+                    for g in self.guards_in(a) {
+                        let w = self.guards[g].who.clone();
+                        self.out.push(R::Access(w));
+                    }
+                }
+            }
+        }
+    }
+    fn visit_expr_field(&mut self, f: &'ast syn::ExprField) {
+        syn::visit::visit_expr_field(self, f);
+        if let syn::Member::Named(m) = &f.member {
+            if m == "ptr" {
+                let w = match &*f.base {
+                    syn::Expr::Path(p) => p
+                        .path
+                        .get_ident()
+                        .and_then(|i| self.guard_named(&i.to_string()))
+                        .map(|g| self.guards[g].who.clone()),
+                    _ => None,
+                };
+                // (a `.ptr` whose base is not a live guard: an access outside every guard)
+                self.access(w.unwrap_or_else(|| "self".into()));
+                if self.guards_in(&f.base).is_empty() {
+                    self.notes.push(format!("`{}.ptr` is not reached through a live guard", norm(&f.base)));
+                    // make it visible in the trace: the access stands outside its guard
+                    let w = self.last_access.clone().unwrap();
+                    if self.guards.iter().any(|g| g.alive && g.who == w) {
+                        self.out.pop();
+                        self.out.push(R::Access("unknown".into()));
+                    }
+                }
+            }
+        }
+    }
+    fn visit_expr_call(&mut self, c: &'ast syn::ExprCall) {
+        syn::visit::visit_expr_call(self, c);
+        let f = norm(&c.func);
+        if f == "drop" && c.args.len() == 1 {
+            if let Some(g) = self.guard_named(&norm(&c.args[0])) {
+                self.release(g);
+            }
+        } else if f == "(clone_fn)" || f == "clone_fn" || f.ends_with("copy_nonoverlapping") {
+            let w = self.last_access.clone().unwrap_or_else(|| "self".into());
+            self.access(w);
+        }
+    }
+}
+
+/// `<recv>.lock().unwrap()` (also `.read()` / `.write()`)
+fn lock_recv_any(e: &syn::Expr) -> Option<&syn::Expr> {
+    if let syn::Expr::MethodCall(u) = e {
+        if u.method == "unwrap" {
+            if let syn::Expr::MethodCall(l) = &*u.receiver {
+                if LOCK_METHODS.contains(&l.method.to_string().as_str()) {
+                    return Some(&l.receiver);
+                }
+            }
+        }
+    }
+    None
+}
+
+fn raw_trace(block: &syn::Block, choose: &[(&str, bool)]) -> (Vec<R>, Vec<String>) {
+    let mut t = RawTracer {
+        out: vec![],
+        guards: vec![],
+        depth: 0,
+        choose,
+        in_chosen: 0,
+        ended: false,
+        binding: None,
+        last_access: None,
+        moved: vec![],
+        notes: vec![],
+    };
+    t.visit_block(block);
+    // whatever is still held goes at the end of the function
+    for i in (0..t.guards.len()).rev() {
+        t.release(i);
+    }
+    (t.out, t.notes)
+}
+
+fn lean_rtoks(toks: &[R]) -> String {
+    let one = |t: &R| match t {
+        R::Point(w) => format!(".point .{w}"),
+        R::UsePoint(w) => format!(".usePoint .{w}"),
+        R::Lock(w) => format!(".lock .{w}"),
+        R::Unlock(w) => format!(".unlock .{w}"),
+        R::Access(w) => format!(".access .{w}"),
+    };
+    format!("[{}]", toks.iter().map(one).collect::<Vec<_>>().join(", "))
+}
+
+const PTR_EQ: &str = "Arc::ptr_eq(&self.0,&other.0)";
+const ADDR_LT: &str = "Arc::as_ptr(&self.0)<Arc::as_ptr(&other.0)";
+
+/// the raw traces of every modelled function, as Lean definitions
+fn raw_traces(f: &syn::File) -> Result<String, String> {
+    let mut out = String::new();
+    out.push_str("/-! ### raw lock traces: one per modelled function and path (`same`: both operands are one list,\n    `lt`: `self` has the lower address, `ge`: the higher); Model/ListTrace derives the steps from them -/\n\n");
+    let single: &[(&str, Option<&str>, &str)] = &[
+        ("push", Some("ErasedList"), "rtPush"),
+        ("contains", Some("ErasedList"), "rtContains"),
+        ("contains_owned", Some("ErasedList"), "rtContainsOwned"),
+        ("index", Some("ErasedList"), "rtIndex"),
+        ("index_owned", Some("ErasedList"), "rtIndexOwned"),
+        ("swap", Some("ErasedList"), "rtSwap"),
+        ("len", Some("ErasedList"), "rtLen"),
+        ("capacity", Some("ErasedList"), "rtCapacity"),
+        ("is_empty", Some("ErasedList"), "rtIsEmpty"),
+        ("get", Some("List"), "rtGet"),
+        ("list_get", None, "rtFfiGet"),
+        ("to_vec", Some("List"), "rtToVec"),
+    ];
+    for (name, imp, lean) in single {
+        let b = find::func(f, name, *imp)?;
+        let (t, notes) = raw_trace(&b.block, &[]);
+        for n in notes {
+            out.push_str(&format!("-- {name}: {n}\n"));
+        }
+        out.push_str(&format!("def {lean} : List RTok :=\n  {}\n\n", lean_rtoks(&t)));
+    }
+    let multi: &[(&str, &str, &str)] = &[
+        ("eq", "PartialEq for ErasedList", "rtEq"),
+        ("eq", "PartialEq for List", "rtTypedEq"),
+        ("concat", "ErasedList", "rtConcat"),
+    ];
+    for (name, imp, lean) in multi {
+        let b = find::func(f, name, Some(imp))?;
+        for (suffix, choose) in [
+            ("Same", vec![(PTR_EQ, true)]),
+            ("Lt", vec![(PTR_EQ, false), (ADDR_LT, true)]),
+            ("Ge", vec![(PTR_EQ, false), (ADDR_LT, false)]),
+        ] {
+            let (t, notes) = raw_trace(&b.block, &choose);
+            for n in notes {
+                out.push_str(&format!("-- {imp}::{name} ({suffix}): {n}\n"));
+            }
+            out.push_str(&format!("def {lean}{suffix} : List RTok :=\n  {}\n\n", lean_rtoks(&t)));
+        }
+    }
     Ok(out)
 }
